@@ -601,9 +601,11 @@ Definition act (cf : cfg) (s : state) (a : action) : state * out :=
     | None =>
       if s_rdead s then (s, ONone)
       else if rxo_ok cf rel tl then
-        (mkSt (s_now s) (s_changes s) (s_last s) (s_inst s) (s_log s)
-              (Some (new_rproxy rel tl (s_changes s))) true (s_waits s)
-              (Some (mkRd rel tl (Some new_wproxy) [] [] [])) (s_rdead s) (s_net s), ONone)
+        (* discovery takes several worker iterations: the first poke after add_matched_reader sends the
+           unsent changes, a later one may find a HEARTBEAT due *)
+        (poke cf (mkSt (s_now s) (s_changes s) (s_last s) (s_inst s) (s_log s)
+                       (Some (new_rproxy rel tl (s_changes s))) true (s_waits s)
+                       (Some (mkRd rel tl (Some new_wproxy) [] [] [])) (s_rdead s) (s_net s)), ONone)
       else (set_rd s (Some (mkRd rel tl None [] [] [])), ONone)
     end
   | ADelReader =>
